@@ -53,3 +53,196 @@ func ZZ_C18_uvarint_roundtrip() {
 	zzvAssert("roundtrip-value", got == v)
 	zzvAssert("framing", zzEqBytes(full, trail))
 }
+
+func ZZ_C18_varint_roundtrip() {
+	zzvBound("value", "all 2^64 int64 values")
+	v := zzvInt64("v")
+	pre, trail := zzPrefixTrail(1, 2)
+	b := append([]byte{}, pre...)
+	EncodeVarint64(&b, v)
+	n := len(b) - len(pre)
+	zzvCover("encoded")
+	zzvAssert("size-1..9", n >= 1 && n <= 9)
+	zzvAssert("size-fn", Varint64Size(v) == n)
+	zzvAssert("prefix-preserved", zzEqBytes(b[:len(pre)], pre))
+	enc := append([]byte{}, b[len(pre):]...)
+	for k := 0; k < n; k++ {
+		p := enc[:k]
+		_, err := DecodeVarint64(&p)
+		zzvAssert("strict-prefix-eof", err == io.EOF)
+		zzvAssert("strict-prefix-unconsumed", len(p) == k)
+		q := enc[:k]
+		_, err = DecodeVarint32(&q)
+		zzvAssert("strict-prefix-eof-32", err == io.EOF)
+		zzvAssert("strict-prefix-unconsumed-32", len(q) == k)
+	}
+	full := append(append([]byte{}, enc...), trail...)
+	got, err := DecodeVarint64(&full)
+	zzvAssert("roundtrip-noerr", err == nil)
+	zzvAssert("roundtrip-value", got == v)
+	zzvAssert("framing", zzEqBytes(full, trail))
+	// 32-bit variant
+	full32 := append(append([]byte{}, enc...), trail...)
+	got32, err32 := DecodeVarint32(&full32)
+	inRange := v >= -2147483648 && v <= 2147483647
+	if inRange {
+		zzvAssert("varint32-accepts-in-range", err32 == nil)
+		zzvAssert("varint32-value", int64(got32) == v)
+		zzvAssert("varint32-framing", zzEqBytes(full32, trail))
+	} else {
+		zzvAssert("varint32-rejects-overflow", err32 == errVarint32Overflow)
+	}
+}
+
+func ZZ_C18_float64le_roundtrip() {
+	zzvBound("value", "all 2^64 float64 bit patterns incl. NaN payloads, infinities, subnormals, -0")
+	v := zzvFloat64("v")
+	pre, trail := zzPrefixTrail(1, 2)
+	b := append([]byte{}, pre...)
+	EncodeFloat64LE(&b, v)
+	n := len(b) - len(pre)
+	zzvCover("encoded")
+	zzvAssert("size-8", n == 8)
+	zzvAssert("prefix-preserved", zzEqBytes(b[:len(pre)], pre))
+	enc := append([]byte{}, b[len(pre):]...)
+	for k := 0; k < n; k++ {
+		p := enc[:k]
+		_, err := DecodeFloat64LE(&p)
+		zzvAssert("strict-prefix-eof", err == io.EOF)
+		zzvAssert("strict-prefix-unconsumed", len(p) == k)
+	}
+	full := append(append([]byte{}, enc...), trail...)
+	got, err := DecodeFloat64LE(&full)
+	zzvAssert("roundtrip-noerr", err == nil)
+	zzvAssert("roundtrip-bits", zzvSameBits(got, v))
+	zzvAssert("framing", zzEqBytes(full, trail))
+}
+
+func ZZ_C18_varfloat_roundtrip() {
+	zzvBound("value", "all 2^64 float64 bit patterns")
+	v := zzvFloat64("v")
+	pre, trail := zzPrefixTrail(1, 2)
+	b := append([]byte{}, pre...)
+	EncodeVarfloat64(&b, v)
+	n := len(b) - len(pre)
+	zzvCover("encoded")
+	zzvAssert("size-1..9", n >= 1 && n <= 9)
+	zzvAssert("size-fn", Varfloat64Size(v) == n)
+	zzvAssert("prefix-preserved", zzEqBytes(b[:len(pre)], pre))
+	enc := append([]byte{}, b[len(pre):]...)
+	for k := 0; k < n; k++ {
+		p := enc[:k]
+		_, err := DecodeVarfloat64(&p)
+		zzvAssert("strict-prefix-eof", err == io.EOF)
+		zzvAssert("strict-prefix-unconsumed", len(p) == k)
+	}
+	full := append(append([]byte{}, enc...), trail...)
+	got, err := DecodeVarfloat64(&full)
+	zzvAssert("roundtrip-noerr", err == nil)
+	want := (v + 1) - 1
+	zzvAssert("roundtrip-(v+1)-1", zzvSameBits(got, want))
+	zzvAssert("framing", zzEqBytes(full, trail))
+}
+
+// (v+1)-1 == v exactly for every integer 0 <= v < 2^53 and every non-negative multiple of 2^-g
+// below 2^(52-g): the exactness clause of the varfloat codec.
+func ZZ_C18_varfloat_exact_integers() {
+	k := zzvUint64("k")
+	zzvAssume(k < 1<<53)
+	v := float64(k)
+	zzvCover("int")
+	zzvAssert("(v+1)-1==v for integers below 2^53", (v+1)-1 == v)
+	b := []byte{}
+	EncodeVarfloat64(&b, v)
+	got, err := DecodeVarfloat64(&b)
+	zzvAssert("integer-roundtrip-exact", err == nil && got == v)
+	zzvAssert("integer-consumed", len(b) == 0)
+}
+
+func ZZ_C18_varfloat_exact_dyadic() {
+	g := zzvChoose("g", 4) // 2^-1, 2^-4, 2^-10, 2^-20
+	sh := []uint{1, 4, 10, 20}[g]
+	zzvBound("dyadic grids", "multiples of 2^-g for g in {1,4,10,20} below 2^(52-g)")
+	k := zzvUint64("k")
+	zzvAssume(k < 1<<52)
+	v := float64(k) / float64(uint64(1)<<sh)
+	zzvCover("dyadic")
+	zzvAssert("(v+1)-1==v for multiples of 2^-g below 2^(52-g)", (v+1)-1 == v)
+}
+
+// Arbitrary byte strings: no decoder panics, reads more than 9 (8) bytes, or consumes on error.
+func ZZ_C18_arbitrary_input() {
+	zzvBound("input", "every byte string of length 0..12 (all bytes symbolic)")
+	n := zzvChoose("len", 13)
+	in := zzvBytes("in", n)
+	which := zzvChoose("decoder", 5)
+	b := in
+	var err error
+	max := 9
+	switch which {
+	case 0:
+		_, err = DecodeUvarint64(&b)
+	case 1:
+		_, err = DecodeVarint64(&b)
+	case 2:
+		_, err = DecodeVarint32(&b)
+	case 3:
+		_, err = DecodeVarfloat64(&b)
+	case 4:
+		_, err = DecodeFloat64LE(&b)
+		max = 8
+	}
+	zzvCover("decoded")
+	consumed := n - len(b)
+	if err == nil {
+		zzvAssert("consumes-1..9", consumed >= 1 && consumed <= max)
+	} else if err == io.EOF {
+		zzvAssert("error-consumes-nothing", consumed == 0)
+		zzvAssert("eof-only-on-short-input", n < max)
+	} else {
+		zzvAssert("overflow-error-only-from-varint32", which == 2 && err == errVarint32Overflow)
+	}
+	// what remains is the tail of the input
+	zzvAssert("remaining-is-suffix", zzEqBytes(b, in[consumed:]))
+}
+
+func ZZ_C18_flags() {
+	fb := zzvByte("flag")
+	f := Flag{fb}
+	b := []byte{}
+	pre, trail := zzPrefixTrail(1, 1)
+	b = append(b, pre...)
+	EncodeFlag(&b, f)
+	zzvCover("flag-encoded")
+	zzvAssert("flag-one-byte", len(b) == len(pre)+1)
+	zzvAssert("prefix-preserved", zzEqBytes(b[:len(pre)], pre))
+	rest := append(append([]byte{}, b[len(pre):]...), trail...)
+	got, err := DecodeFlag(&rest)
+	zzvAssert("flag-roundtrip", err == nil && got == f)
+	zzvAssert("flag-framing", zzEqBytes(rest, trail))
+	zzvAssert("flag-type-subflag-recompose", NewFlag(f.Type(), f.SubFlag()) == f)
+	zzvAssert("flag-type-2-bits", f.Type().byte <= 3)
+	zzvAssert("flag-subflag-6-bits", f.SubFlag().byte&3 == 0)
+	e := []byte{}
+	_, err = DecodeFlag(&e)
+	zzvAssert("flag-empty-eof", err == io.EOF)
+	// the exported flag constants: documented type bits and pairwise distinct
+	all := []Flag{FlagZeroCountVarFloat, FlagCount, FlagSum, FlagMin, FlagMax,
+		FlagIndexMappingBaseLogarithmic, FlagIndexMappingBaseLinear, FlagIndexMappingBaseQuadratic, FlagIndexMappingBaseCubic, FlagIndexMappingBaseQuartic,
+		NewFlag(FlagTypePositiveStore, BinEncodingIndexDeltasAndCounts), NewFlag(FlagTypePositiveStore, BinEncodingIndexDeltas), NewFlag(FlagTypePositiveStore, BinEncodingContiguousCounts),
+		NewFlag(FlagTypeNegativeStore, BinEncodingIndexDeltasAndCounts), NewFlag(FlagTypeNegativeStore, BinEncodingIndexDeltas), NewFlag(FlagTypeNegativeStore, BinEncodingContiguousCounts)}
+	for i := range all {
+		for j := i + 1; j < len(all); j++ {
+			zzvAssert("flag-constants-distinct", all[i] != all[j])
+		}
+	}
+	for i := 0; i < 5; i++ {
+		zzvAssert("feature-flags-type-00", all[i].Type() == flagTypeSketchFeatures && all[i].Type().byte == 0)
+	}
+	for i := 5; i < 10; i++ {
+		zzvAssert("mapping-flags-type-10", all[i].Type() == FlagTypeIndexMapping && all[i].Type().byte == 2)
+	}
+	zzvAssert("store-flag-types", FlagTypePositiveStore.byte == 1 && FlagTypeNegativeStore.byte == 3)
+	zzvAssert("documented-subflags", FlagZeroCountVarFloat.byte == 1<<2 && FlagCount.byte == 0x28<<2 && FlagSum.byte == 0x21<<2 && FlagMin.byte == 0x22<<2 && FlagMax.byte == 0x23<<2 &&
+		BinEncodingIndexDeltasAndCounts.byte == 1<<2 && BinEncodingIndexDeltas.byte == 2<<2 && BinEncodingContiguousCounts.byte == 3<<2)
+}
